@@ -245,3 +245,20 @@ func TempDir() string {
 	}
 	return d
 }
+
+// LinLe reports Σ ca[i]*xs[i] <= Σ cb[j]*ys[j] over the mathematical integers (no wrap).
+// Under the executor the coefficients must be concrete.
+func LinLe(ca, xs, cb, ys []uint64) bool { return lin(ca, xs).Cmp(lin(cb, ys)) <= 0 }
+
+// LinEq reports Σ ca[i]*xs[i] == Σ cb[j]*ys[j] over the mathematical integers.
+func LinEq(ca, xs, cb, ys []uint64) bool { return lin(ca, xs).Cmp(lin(cb, ys)) == 0 }
+
+func lin(c, x []uint64) *big.Int {
+	s := new(big.Int)
+	for i := range c {
+		t := new(big.Int).SetUint64(c[i])
+		t.Mul(t, new(big.Int).SetUint64(x[i]))
+		s.Add(s, t)
+	}
+	return s
+}
